@@ -98,7 +98,7 @@ fn run_reader(rt: &tokio::runtime::Runtime, chunks: Vec<Vec<u8>>) -> Result<Vec<
 /// The real socket arms of the reader, without any hook: a loopback TCP connection (writer task sends one chunk,
 /// flushes and yields, so that on the current-thread runtime the reader usually sees the chunk boundaries; the
 /// connection is closed at the end, which ends the stream) ...
-fn run_reader_tcp(rt: &tokio::runtime::Runtime, chunks: Vec<Vec<u8>>) -> Option<Result<Vec<Vec<u8>>, (String, String)>> {
+fn run_reader_tcp_once(rt: &tokio::runtime::Runtime, chunks: Vec<Vec<u8>>) -> Option<Result<Vec<Vec<u8>>, (String, String)>> {
     use tokio::io::AsyncWriteExt;
     let setup = rt.block_on(async {
         let l = tokio::net::TcpListener::bind("127.0.0.1:0").await.ok()?;
@@ -153,7 +153,7 @@ async fn finish_peer(h: tokio::task::JoinHandle<()>) {
 
 /// ... and loopback UDP, where every datagram is exactly one read. A UDP stream has no end: collection stops when
 /// nothing arrives for a while, so only the content of what was handed on is judged (never how much).
-fn run_reader_udp(rt: &tokio::runtime::Runtime, chunks: Vec<Vec<u8>>) -> Option<Result<Vec<Vec<u8>>, (String, String)>> {
+fn run_reader_udp_once(rt: &tokio::runtime::Runtime, chunks: Vec<Vec<u8>>) -> Option<Result<Vec<Vec<u8>>, (String, String)>> {
     let setup = rt.block_on(async {
         let rx = tokio::net::UdpSocket::bind("127.0.0.1:0").await.ok()?;
         let addr = rx.local_addr().ok()?;
@@ -191,7 +191,7 @@ fn run_reader_udp(rt: &tokio::runtime::Runtime, chunks: Vec<Vec<u8>>) -> Option<
 
 /// ... and a loopback websocket (the wsbroad relay of the documentation): every binary message is one read; the
 /// server closes the connection after the last one, which ends the stream.
-fn run_reader_ws(rt: &tokio::runtime::Runtime, chunks: Vec<Vec<u8>>) -> Option<Result<Vec<Vec<u8>>, (String, String)>> {
+fn run_reader_ws_once(rt: &tokio::runtime::Runtime, chunks: Vec<Vec<u8>>) -> Option<Result<Vec<Vec<u8>>, (String, String)>> {
     use futures_util::SinkExt;
     use tokio_tungstenite::tungstenite::protocol::Message as WsMessage;
     let listener = rt.block_on(async { tokio::net::TcpListener::bind("127.0.0.1:0").await.ok() })?;
@@ -242,18 +242,72 @@ fn run_reader_ws(rt: &tokio::runtime::Runtime, chunks: Vec<Vec<u8>>) -> Option<R
     .transpose()
 }
 
+/// a loopback socket that cannot be set up (no ephemeral port left on a busy machine) is tried again a few times before
+/// the arm is declared unavailable for this case
+fn with_retry(f: impl Fn(Vec<Vec<u8>>) -> Option<Result<Vec<Vec<u8>>, (String, String)>>, chunks: Vec<Vec<u8>>) -> Option<Result<Vec<Vec<u8>>, (String, String)>> {
+    for k in 0..6u64 {
+        if let Some(x) = f(chunks.clone()) {
+            return Some(x);
+        }
+        std::thread::sleep(std::time::Duration::from_millis(300 * (k + 1)));
+    }
+    None
+}
+fn run_reader_tcp(rt: &tokio::runtime::Runtime, chunks: Vec<Vec<u8>>) -> Option<Result<Vec<Vec<u8>>, (String, String)>> {
+    with_retry(|c| run_reader_tcp_once(rt, c), chunks)
+}
+fn run_reader_udp(rt: &tokio::runtime::Runtime, chunks: Vec<Vec<u8>>) -> Option<Result<Vec<Vec<u8>>, (String, String)>> {
+    with_retry(|c| run_reader_udp_once(rt, c), chunks)
+}
+fn run_reader_ws(rt: &tokio::runtime::Runtime, chunks: Vec<Vec<u8>>) -> Option<Result<Vec<Vec<u8>>, (String, String)>> {
+    with_retry(|c| run_reader_ws_once(rt, c), chunks)
+}
+
 fn split(raw: &[u8], cuts: &[usize]) -> Vec<Vec<u8>> {
     let mut out = vec![];
     let mut prev = 0;
+    let mut empties = vec![]; // indices (in `out`) before which an empty piece is delivered
     for c in cuts {
         if *c > prev && *c < raw.len() {
             out.push(raw[prev..*c].to_vec());
             prev = *c;
+        } else if *c == prev || *c >= raw.len() {
+            // a repeated cut offset stands for an empty piece (a zero-length datagram or message) at that place
+            empties.push((out.len(), *c >= raw.len()));
         }
     }
     out.push(raw[prev..].to_vec());
     // never hand the reader more than its 1024-byte buffer at once
-    out.into_iter().flat_map(|c| c.chunks(1024).map(|x| x.to_vec()).collect::<Vec<_>>()).filter(|c| !c.is_empty()).collect()
+    let mut v: Vec<Vec<u8>> = vec![];
+    let mut k = 0;
+    for (i, c) in out.into_iter().enumerate() {
+        while k < empties.len() && empties[k].0 == i && !empties[k].1 {
+            v.push(vec![]);
+            k += 1;
+        }
+        v.extend(c.chunks(1024).map(|x| x.to_vec()).filter(|x| !x.is_empty()));
+    }
+    for e in &empties[k..] {
+        let _ = e;
+        v.push(vec![]);
+    }
+    v
+}
+
+/// the cut list with one to three offsets repeated (or 0 / len added): the same partition with empty pieces in it
+fn with_empty_pieces(rng: &mut Rng, cuts: &[usize], n: usize) -> Vec<usize> {
+    let mut v = cuts.to_vec();
+    for _ in 0..rng.range(1, 3) {
+        let c = match rng.below(4) {
+            0 => 0,
+            1 => n,
+            _ if !cuts.is_empty() => *rng.pick(cuts),
+            _ => 0,
+        };
+        v.push(c);
+    }
+    v.sort();
+    v
 }
 
 struct Case<'a> {
@@ -397,6 +451,16 @@ fn exercise(r: &mut Report, rt: &tokio::runtime::Runtime, rng: &mut Rng, frames:
         let got = run_reader(rt, split(&raw, &cuts));
         judge(r, &case, &cuts, &got, coarse_ok, "multi-cut(random)");
     }
+    // partitions with empty pieces in them (a zero-length datagram, an empty websocket message): nothing may change
+    for _ in 0..3 {
+        let k = rng.range(0, 5) as usize;
+        let mut cuts: Vec<usize> = (0..k).map(|_| rng.range(1, (n as i64 - 1).max(1)) as usize).collect();
+        cuts.sort();
+        cuts.dedup();
+        let cuts = with_empty_pieces(rng, &cuts, n);
+        let got = run_reader(rt, split(&raw, &cuts));
+        judge(r, &case, &cuts, &got, coarse_ok, "empty-piece(hook)");
+    }
     // 1-byte dribble
     let cuts: Vec<usize> = (1..n).collect();
     let got = run_reader(rt, split(&raw, &cuts));
@@ -416,7 +480,7 @@ fn exercise(r: &mut Report, rt: &tokio::runtime::Runtime, rng: &mut Rng, frames:
 }
 
 pub fn run(a: &Args, r: &mut Report) {
-    r.rule = "frame sequences of 1-8 Beast frames (0x31/0x32/0x33 and 0x34 which must be swallowed), 0x1A density 0-40 %, runs of 2-6 consecutive 0x1A, 0x1A as first/last byte of timestamp, signal and payload; chunkings: one piece, EVERY single cut and EVERY pair of cuts of each short stream (<= 80 raw bytes quick, <= 200 thorough), random multi-cut, 1-byte dribble, cuts before/between/after every escape pair of long streams (up to 3000 bytes, 1024-byte reads); delivered through hook H1 on a current-thread executor; in addition random chunkings through the real TCP, UDP and websocket arms over loopback sockets (no hook; UDP judged on content only), incl. datagrams and messages longer than 1024 bytes. distinct = distinct (stream, chunking) pairs with a correct result".into();
+    r.rule = "frame sequences of 1-8 Beast frames (0x31/0x32/0x33 and 0x34 which must be swallowed), 0x1A density 0-40 %, runs of 2-6 consecutive 0x1A, 0x1A as first/last byte of timestamp, signal and payload; chunkings: one piece, EVERY single cut and EVERY pair of cuts of each short stream (<= 80 raw bytes quick, <= 200 thorough), random multi-cut, 1-byte dribble, cuts before/between/after every escape pair of long streams (up to 3000 bytes, 1024-byte reads); delivered through hook H1 on a current-thread executor; in addition random chunkings through the real TCP, UDP and websocket arms over loopback sockets (no hook; UDP judged on content only), incl. datagrams and messages longer than 1024 bytes, and partitions with empty pieces (zero-length datagrams, empty websocket messages, empty hook chunks). distinct = distinct (stream, chunking) pairs with a correct result".into();
     r.assumptions.push("a frame may stay pending while fewer than 23 bytes (one byte of slack per escape pair, for chunked deliveries) of the stream remain after the last frame handed on".into());
     let rt = tokio::runtime::Builder::new_current_thread().build().unwrap();
     if let Some(p) = &a.replay {
@@ -505,6 +569,17 @@ pub fn run(a: &Args, r: &mut Report) {
                     judge(r, &case, &cuts, &got, coarse.as_ref().ok(), label);
                 }
             }
+            if i % 16 == 9 || i % 16 == 13 {
+                // zero-length datagrams and empty websocket messages among the others
+                let cuts_e = with_empty_pieces(&mut rng, &cuts, n);
+                if i % 16 == 9 {
+                    if let Some(got) = run_reader_udp(&rt_io, split(&raw, &cuts_e)) {
+                        judge(r, &case, &cuts_e, &got, None, "udp-zero-length-datagram(real socket arm)");
+                    }
+                } else if let Some(got) = run_reader_ws(&rt_io, split(&raw, &cuts_e)) {
+                    judge(r, &case, &cuts_e, &got, coarse.as_ref().ok(), "websocket-empty-message(real socket arm)");
+                }
+            }
             if i % 16 == 3 && raw.len() > 1024 {
                 // datagrams as a UDP relay really sends them: MTU-sized (1400) or a whole socat block (8192), i.e. longer
                 // than 1024 bytes. A datagram is delivered by one read or not at all.
@@ -578,6 +653,6 @@ pub fn run(a: &Args, r: &mut Report) {
         exercise(r, &rt, &mut rng, &frames, false, 0);
     }
     if !a.asan {
-        r.extra.insert("mandatory".into(), json!(["one-piece", "single-cut(exhaustive)", "double-cut(exhaustive)", "dribble(1-byte reads)", "cut:between-two-0x1A", "cut:just-after-0x1A", "cut:just-before-0x1A", "cut:at-frame-boundary", "cut-at-escape-pair", "udp-large-datagram(real socket arm)", "websocket-loopback(real socket arm)", "websocket-large-message(real socket arm)", "very-large-read:hook(one chunk)", "udp-very-large-datagram(real socket arm)", "websocket-very-large-message(real socket arm)", "whole-stream-in-one-read(> 1024 bytes)", "tcp-loopback(real socket arm)"]));
+        r.extra.insert("mandatory".into(), json!(["one-piece", "single-cut(exhaustive)", "double-cut(exhaustive)", "dribble(1-byte reads)", "cut:between-two-0x1A", "cut:just-after-0x1A", "cut:just-before-0x1A", "cut:at-frame-boundary", "cut-at-escape-pair", "udp-large-datagram(real socket arm)", "websocket-loopback(real socket arm)", "websocket-large-message(real socket arm)", "very-large-read:hook(one chunk)", "udp-very-large-datagram(real socket arm)", "websocket-very-large-message(real socket arm)", "whole-stream-in-one-read(> 1024 bytes)", "tcp-loopback(real socket arm)", "empty-piece(hook)", "udp-zero-length-datagram(real socket arm)", "websocket-empty-message(real socket arm)"]));
     }
 }
